@@ -171,6 +171,15 @@ SITES = [
     S("arrElemStart", "base/src/primitive.rs", r"for i in 0\.\.N \{\s*T::validate_unchecked\(bytes\.get_unchecked\(\((.*?)\)\.\.\)\.get_unchecked\(\.\.T::SIZE\)\)\.map_err", [(r"T::SIZE", "tsize")], ["i", "tsize"]),
     S("arrElemLen", "base/src/primitive.rs", r"for i in 0\.\.N \{\s*T::validate_unchecked\(bytes\.get_unchecked\(\(i \* T::SIZE\)\.\.\)\.get_unchecked\(\.\.(.*?)\)\)\.map_err", [(r"T::SIZE", "tsize")], ["tsize"]),
     S("arrElemErrPos", "base/src/primitive.rs", r"\.get_unchecked\(\.\.T::SIZE\)\)\.map_err\(\|e\| e\.offset\((.*?)\)\)\?;\s*\}\s*Ok\(\(\)\)", [(r"T::SIZE", "tsize")], ["i", "tsize"]),
+    # base/src/traits.rs, base/src/emplacer.rs: the checked entry points test the *whole* input (alignment, minimum size) and then run the
+    # unchecked function on the same bytes; `from_bytes` / `from_mut_bytes` hand out the view only after `validate`; `assign_in_place` runs the
+    # emplacer unchecked on `as_mut_bytes()`. Shape sites: the captured atom is what is tested / mapped.
+    S("traitsValidate", "base/src/traits.rs", r"fn validate\(bytes: &\[u8\]\) -> Result<\(\), Error> \{\s*check_align_and_min_size::<Self>\((\w+)\)\?;\s*unsafe \{ Self::validate_unchecked\(bytes\) \}\s*\}", [(r"^bytes$", "whole")], ["whole"]),
+    S("traitsFromBytes", "base/src/traits.rs", r"fn from_bytes\(bytes: &\[u8\]\) -> Result<&Self, Error> \{\s*Self::validate\((\w+)\)\?;\s*Ok\(unsafe \{ Self::from_bytes_unchecked\(bytes\) \}\)\s*\}", [(r"^bytes$", "whole")], ["whole"]),
+    S("traitsFromMutBytes", "base/src/traits.rs", r"fn from_mut_bytes\(bytes: &mut \[u8\]\) -> Result<&mut Self, Error> \{\s*Self::validate\((\w+)\)\?;\s*Ok\(unsafe \{ Self::from_mut_bytes_unchecked\(bytes\) \}\)\s*\}", [(r"^bytes$", "whole")], ["whole"]),
+    S("emplacerEmplace", "base/src/emplacer.rs", r"fn emplace\(self, bytes: &mut \[u8\]\) -> Result<&mut T, Error> \{\s*check_align_and_min_size::<T>\((\w+)\)\?;\s*unsafe \{ self\.emplace_unchecked\(bytes\) \}\s*\}", [(r"^bytes$", "whole")], ["whole"]),
+    S("traitsNewInPlace", "base/src/traits.rs", r"fn new_in_place<I: Emplacer<Self>>\(bytes: &mut \[u8\], emplacer: I\) -> Result<&mut Self, Error> \{\s*emplacer\.emplace\((\w+)\)\?;\s*Ok\(unsafe \{ Self::from_mut_bytes_unchecked\(bytes\) \}\)\s*\}", [(r"^bytes$", "whole")], ["whole"]),
+    S("traitsAssign", "base/src/traits.rs", r"fn assign_in_place<I: Emplacer<Self>>\(&mut self, emplacer: I\) -> Result<&mut Self, Error> \{\s*unsafe \{\s*let bytes = self\.as_mut_bytes\(\);\s*emplacer\.emplace_unchecked\((\w+)\)\?;\s*Ok\(Self::from_mut_bytes_unchecked\(bytes\)\)\s*\}\s*\}", [(r"^bytes$", "view")], ["view"]),
     # base/src/utils/iter.rs
     S("singleMinSize", "base/src/utils/iter.rs", r"impl<T: Flat \+ \?Sized> TypeIter for SingleType<T> \{.*?fn min_size\(&self, pos: usize\) -> usize \{(.*?)\}", [(r"T::ALIGN", "talign"), (r"T::MIN_SIZE", "tmin")], ["pos", "talign", "tmin"]),
     S("twoMinSizeArg", "base/src/utils/iter.rs", r"impl<T: Flat \+ Sized, I: TypeIter> TypeIter for TwoOrMoreTypes<T, I> \{.*?fn min_size\(&self, pos: usize\) -> usize \{\s*self\.next\.min_size\((.*?)\)\s*\}", [(r"T::ALIGN", "talign"), (r"T::SIZE", "tsize")], ["pos", "talign", "tsize"]),
@@ -247,6 +256,10 @@ SITES = [
     S("aioRecvCap", "io/src/async_/recv.rs", r"Self::new\(IoBuffer::new\(pipe, (.*?), M::ALIGN\)\)", [(r"max_msg_len\.max\(M::MIN_SIZE\)", "max(maxlen, tmin)")], ["maxlen", "tmin"]),
     S("initWalkerErrPos", "macros/src/items/init.rs", r"let iter = iter::BytesMutIter::new\(__flatty_bytes, iter::type_list!\(#type_list\)\)\s*\.map_err\(\|e\| e\.offset\((.*?)\)\)\?;", [(r"__flatty_offset", "off")], ["off"]),
     S("iterNewChecks", "base/src/utils/iter.rs", r"pub fn new\(data: D, iter: I\) -> Result<Self, Error> \{\s*iter\.check_align_and_min_size\((data\.bytes\(\))\)\?;\s*Ok\(unsafe \{ Self::new_unchecked\(data, iter\) \}\)\s*\}", [(r"data\.bytes\(\)", "whole")], ["whole"]),
+    # the generated enum emplacer: payload floored, then the variant's room/alignment test (offset by DATA_OFFSET), then the tag, then the fields —
+    # the sites exist only while these four stand in that order
+    S("initEnumFloor", "macros/src/items/init.rs", r"let __flatty_offset = <#self_ident<#self_args>>::DATA_OFFSET;\s*let \(__flatty_tag_bytes, __flatty_bytes\) = __flatty_bytes\.split_at_mut\(__flatty_offset\);\s*(?://[^\n]*\n\s*)*let __flatty_len = (::flatty::utils::floor_mul\(__flatty_bytes\.len\(\), <#self_ident<#self_args> as ::flatty::traits::FlatBase>::ALIGN\));\s*let __flatty_bytes = __flatty_bytes\.get_unchecked_mut\(\.\.__flatty_len\);\s*#check\s*#set_tag\s*#body", [(r"__flatty_bytes\.len\(\)", "n"), (r"<#self_ident<#self_args> as FlatBase>::ALIGN", "align")], ["n", "align"]),
+    S("initEnumCheckPos", "macros/src/items/init.rs", r"iter::type_list!\(#type_list\)\.check_align_and_min_size\(__flatty_bytes\)\s*\.map_err\(\|e\| e\.offset\((.*?)\)\)\?;", [(r"__flatty_offset", "off")], ["off"]),
     S("initFloor", "macros/src/items/init.rs", r"let __flatty_len = (::flatty::utils::floor_mul\(__flatty_bytes\.len\(\), <#self_ident<#self_args> as ::flatty::traits::FlatBase>::ALIGN\));", [(r"__flatty_bytes\.len\(\)", "n"), (r"<#self_ident<#self_args> as FlatBase>::ALIGN", "align")], ["n", "align"]),
 ]
 
